@@ -124,12 +124,11 @@ def run(tier, logdir):
 
         def bar_claim(ex, p, a):
             fin = [e[3] for e in p.events if e[0] == "call" and e[1].endswith("ProgressState::is_finished")]
-            parts = ["(=> (not (= %s 0)) (not (= %s 0)))" % (ex.sym("arg_2"), a)]
             if fin:
-                parts.append("(=> (not (= %s 0)) (not (= %s 0)))" % (fin[0], a))
-            else:
-                parts.append("false")  # is_finished not consulted before the gate
-            return "(and %s)" % " ".join(parts)
+                return "(and (=> (not (= %s 0)) (not (= %s 0))) (=> (not (= %s 0)) (not (= %s 0))))" % (ex.sym("arg_2"), a, fin[0], a)
+            # is_finished() was not consulted on this path (e.g. `force_draw || is_finished()` short-circuits): such a path may
+            # only be taken by a forced draw, and must then ask with force
+            return "(and (not (= %s 0)) (not (= %s 0)))" % (ex.sym("arg_2"), a)
         check_sites("F2 BarState::draw: forced or finished => the gate is asked with force", fn, r"ProgressDrawTarget::drawable$", 1, bar_claim)
         fn = mir.find("draw", self_ty="&mut MultiState")
         if S.assigned_in_cycle(fn, "_2"):
